@@ -546,6 +546,7 @@ def op_write(sim: Sim, a) -> str:
         sim.probe("grow_across_tile")
     grew = r >= tm.nrows or c >= tm.ncols
     tm.write(r, c, v)
+    tm.styles.pop((r, c), None)  # a plain write replaces the cell object: its style goes with it (mirrored, not judged)
     if sim.real:
         with warnings.catch_warnings(record=True) as ws:
             warnings.simplefilter("always")
